@@ -38,3 +38,17 @@ Theorem c12_only_protocol_errors : forall p d tr s l s',
   run sys label step (init p d) tr = Some s -> step s l = Some s' -> damp_ok s l s' = true.
 Proof. exact damping_only_by_protocol_error. Qed.
 Print Assumptions c12_only_protocol_errors.
+
+(* recorded finding D14: the full statement "every protocol error an FSM has to report reaches the
+   manager" is false of the faithful model; the witness trace is replayed on the implementation
+   by scenario known.D14.error-dropped-by-stop *)
+From Verif Require Import PeerFindings.
+Theorem c12_every_protocol_error_reported_refuted : ~ every_protocol_error_reported.
+Proof. exact error_report_refuted. Qed.
+Print Assumptions c12_every_protocol_error_reported_refuted.
+
+Theorem c12_error_reported_partial : forall p d tr s i,
+  run sys label step (init p d) tr = Some s ->
+  (match get (s_fsm s) i with Some f => f_closed f | None => false end) = false -> report_lost s i = false.
+Proof. exact error_reported_partial. Qed.
+Print Assumptions c12_error_reported_partial.
